@@ -24,6 +24,8 @@ MANIFEST = {
 def check(seed, tier):
     rep = Report("C15", seed, tier)
     core.build_harness()
+    # mode M: the specification modules against hand-derived expectations on hand-written projects
+    core.mc(rep, "mc/MC_Walk.tla", "MC_Walk.cfg", workers=1)
     meta = core.gen("C15", seed, tier, shards=8)
     core.validate_traces(rep, TRACE_SPEC, meta["files"], parallel=int(os.environ.get("VERIF_PAR", 4 if tier == "quick" else 8)), timeout=3600)
 
@@ -46,7 +48,7 @@ def check(seed, tier):
                 "distinct = distinct case hashes",
         "source_calls": meta["extra"].get("source_calls"), "reported_source_calls": meta["extra"].get("reported_source_calls"),
         "prerequisite_analysis_panics": skipped,
-        "samples": [str(s)[:1500] for s in meta["samples"][:2]], "exhaustive": False, "trusted_base": TRUSTED,
+        "samples": [str(s)[:1500] for s in meta["samples"][:2]], "exhaustive": False, "mc_runs": rep.cov.get("mc_runs"), "trusted_base": TRUSTED,
     }, ["programs: 1-3 functions with 2-6 blocks; may-taint / never-taint register pools; stores store never-taint expressions only",
         "one or two calling conventions per project; extern calls with 0-3 declared parameters incl. a 32-bit sub-register and a stack parameter; "
         "indirect calls, internal calls with/without return site, non-returning callees, noreturn extern",
